@@ -767,6 +767,26 @@ class ScriptDirectory:
         else:
             resolved_depends_on = None
 
+        if branch_labels:
+            # refuse a branch label that is already taken before the file
+            # is written; the revision map would only notice when the new
+            # file is loaded, leaving an unloadable file behind
+            taken = set(self.revision_map._revision_map)
+            taken.add(str(revid))
+            for label in util.to_tuple(branch_labels):
+                if label in taken:
+                    used_by = self.revision_map._revision_map.get(label)
+                    raise util.CommandError(
+                        "Branch name '%s' in revision %s already "
+                        "used by revision %s"
+                        % (
+                            label,
+                            revid,
+                            used_by.revision if used_by else revid,
+                        )
+                    )
+                taken.add(label)
+
         self._generate_template(
             os.path.join(self.dir, "script.py.mako"),
             path,
